@@ -131,6 +131,7 @@ def step (s : Eng) (line : String) : Eng × String :=
   match f with
   | ["case", id] => ({}, s!"case {id}")
   | "ref" :: _ => (s, "ok")
+  | ["expect-recovered"] => (s, "ok")
   | _ =>
   if s.exit ≠ 0 && !(f == ["state"] || f == ["ltx"] || f == ["raw"]) then (s, "exited") else
   match f with
@@ -174,6 +175,15 @@ def step (s : Eng) (line : String) : Eng × String :=
         | .ok s' => (s', "ok")
         | .error (s', r) => (s', showRes r)
       | _, _ => (s, "bad-op")
+    | "plant" =>
+      if !(s.opened && s.hasDB) then (s, "bad-op") else
+      (match bytesOf ls with
+       | none => (s, "bad-op")
+       | some b =>
+         if owner == "database" then ({ s with dbFile := some b }, "ok")
+         else if owner == "journal" then ({ s with journal := some b }, "ok")
+         else if owner == "wal" then ({ s with wal := some b }, "ok")
+         else (s, "bad-op"))
     | _ => (s, "bad-op")
   | ["dbt", sz] =>
     if !(s.opened && s.hasDB) then (s, "bad-op") else
@@ -197,6 +207,46 @@ def step (s : Eng) (line : String) : Eng × String :=
     (match removeWAL s with | .ok s' => (s', "ok") | .error (s', r) => (s', showRes r))
   | ["drop"] => if !(s.opened && s.hasDB) then (s, "bad-op") else run s (drop s)
   | ["ckpt"] => if !(s.opened && s.hasDB) then (s, "bad-op") else run s (checkpoint s)
+  | "corrupt" :: file :: rest =>
+    if !(s.opened && s.hasDB) then (s, "bad-op") else
+    let get : Option (Option ByteArray) :=
+      if file == "database" then some s.dbFile else if file == "journal" then some s.journal
+      else if file == "wal" then some s.wal else none
+    (match get with
+     | none => (s, "bad-op")
+     | some none => (s, "enoent")
+     | some (some b) =>
+       let r : Option ByteArray := match rest with
+         | ["flip", off, x] => do
+           let off ← off.toNat?; let x ← x.toNat?
+           if off < b.size then some (writeAt b off (ByteArray.mk #[(getD b off) ^^^ UInt8.ofNat x])) else none
+         | ["trunc", sz] => do let sz ← sz.toNat?; if sz ≤ 67108864 then some (truncate b sz) else none
+         | ["zero", off, n] => do
+           let off ← off.toNat?; let n ← n.toNat?
+           some (if off ≥ b.size then b else writeAt b off (zeros (min n (b.size - off))))
+         | ["put", off, d] => do
+           let off ← off.toNat?; let d ← bytesOf d
+           if off + d.size ≤ b.size then some (writeAt b off d) else none
+         | _ => none
+       match r with
+       | none => (s, "bad-op")
+       | some b' =>
+         if file == "database" then ({ s with dbFile := some b' }, "ok")
+         else if file == "journal" then ({ s with journal := some b' }, "ok")
+         else ({ s with wal := some b' }, "ok"))
+  | ["walfix"] =>
+    if !s.hasDB then (s, "bad-op") else
+    (match s.wal with
+     | none => (s, "enoent")
+     | some b =>
+       if b.size < 32 then (s, "enoent") else
+       let bigE := be32 b 0 == walMagicBE
+       match walChecksum bigE 0 0 (b.extract 0 24) with
+       | .ok (c1, c2) => ({ s with wal := some (writeAt (writeAt b 24 (putBE32 c1)) 28 (putBE32 c2)) }, "ok")
+       | .error _ => (s, "err"))
+  | ["fsize", file] =>
+    if !s.hasDB then (s, "bad-op") else
+    (s, fsize (if file == "journal" then s.journal else if file == "wal" then s.wal else s.dbFile))
   | ["locks"] =>
     if !(s.opened && s.hasDB) then (s, "bad-op") else
     (s, " ".intercalate (LockType.all.map fun l => s!"{l.name.toLower}={(s.locks.state l).toString}"))
